@@ -11,6 +11,30 @@ CLAIMS = {
         "note": SCREEN_NOTE,
         "technique": "runtime monitoring: lock-step reference model + terminal-emulator oracle at every flush",
     },
+    "C02": {
+        "text": "Exploration: seeded random MultiProgress histories (add/insert*/remove/tick/inc/set_message/finish*/drop/println/clear/suspend/set_alignment, 1-6 bars, rate-limited and unlimited targets) against a tag-based screen oracle evaluated at every flush: every live drawn member exactly once with a state it really had (never older than shown before), in logical order, below the log; nothing of removed/cleared bars; finished-and-dropped bars at most once. The schedule (multi-thread) part of the property is exercised by the C08/C07 stress lanes only as far as their monitors go; see level_note.",
+        "design_ref": "DESIGN.md §4 C02",
+        "note": SCREEN_NOTE + " Index-based inserts are normalised to 'append' once a member bar has been dropped (the statement does not define indices relative to not-yet-reaped bars). set_move_cursor(true) is excluded (documented to leave residue).",
+        "technique": "runtime monitoring: tag-based terminal-emulator oracle + per-bar state-snapshot ranges at every flush",
+    },
+    "C03": {
+        "text": "Exploration: the C01/C02 alphabets with println/suspend weight tripled, limiters exhausted on purpose (1-3 Hz targets, 21+ ticks at one virtual instant), every finish/drop order; at every flush every emitted log line must be on the screen exactly once, in emission order, above the live bars; each history ends with println+clear+println to reveal latent mis-accounting.",
+        "design_ref": "DESIGN.md §4 C03",
+        "note": SCREEN_NOTE,
+        "technique": "runtime monitoring: exactly-once / in-order log oracle over the emulated screen at every flush",
+    },
+    "C04": {
+        "text": "Exploration: histories with limiter-exhausting bursts directly before finish*/abandon*/finish_using_style/drop on 1-255 Hz targets, standalone and in a MultiProgress; monitors: a finishing call on a visible bar must flush at least once and that frame must show the final state; dropping a finished bar must cause zero terminal calls; visibly finished bars must stay on screen until println/clear/suspend/remove intervenes; getters must equal the model.",
+        "design_ref": "DESIGN.md §4 C04",
+        "note": SCREEN_NOTE + " Iterator-driven completion is covered by C17's lanes.",
+        "technique": "runtime monitoring: flush-presence + final-frame oracle on hooked virtual time",
+    },
+    "C19": {
+        "text": "Exploration: every terminal size 1x1..12x8 (plus 20/40 columns x 2..6 rows with up to 12 bars), line widths at k*W-1, k*W, k*W+1, bars growing and shrinking past the terminal height; oracle: physical-row equality (single bar) / tag oracle (multi) with the longest-fitting-prefix rule, no live-bar row in the scrollback, omitted bars back as soon as they fit.",
+        "design_ref": "DESIGN.md §4 C19",
+        "note": SCREEN_NOTE + " The cursor rule is not evaluated for frames cut by the height.",
+        "technique": "runtime monitoring: terminal-emulator oracle with scrollback on swept terminal sizes",
+    },
 }
 
 ALL = [f"C{n:02d}" for n in range(1, 20)]
